@@ -71,7 +71,35 @@ func (p *ProbeAppender) Stop()               {}
 func (p *ProbeAppender) Append(e *log.Event) {}
 func (p *ProbeAppender) Write(b []byte)      {}
 
-func init() { log.RegisterPlugin[ProbeAppender]("Probe", log.PluginTypeAppender) }
+func init() {
+	log.RegisterPlugin[ProbeAppender]("Probe", log.PluginTypeAppender)
+	log.RegisterPlugin[Probe2Appender]("Probe2", log.PluginTypeAppender)
+}
+
+// Probe2Appender declares defaults that are placeholders themselves: a default is a value like a
+// configured one.
+type Probe2Appender struct {
+	log.AppenderBase
+	Dir string `PluginAttribute:"dir,default=${probe_dir}"`
+	Cap int    `PluginAttribute:"cap,default=${probe_cap}"`
+}
+
+var probe2Got struct {
+	sync.Mutex
+	dir string
+	cap int
+	set bool
+}
+
+func (p *Probe2Appender) Start() error {
+	probe2Got.Lock()
+	probe2Got.dir, probe2Got.cap, probe2Got.set = p.Dir, p.Cap, true
+	probe2Got.Unlock()
+	return nil
+}
+func (p *Probe2Appender) Stop()               {}
+func (p *Probe2Appender) Append(e *log.Event) {}
+func (p *Probe2Appender) Write(b []byte)      {}
 
 // PAttr is how one attribute of the probe is written in a case.
 type PAttr struct {
@@ -133,7 +161,7 @@ var probeAttrs = []attrKind{
 
 func (c15) Gen(rt *rapid.T, thorough bool) any {
 	s := &C15Scn{Knobs: genKnobs(rt), Style: genStyle(rt)}
-	s.Mode = rapid.SampledFrom([]string{"probe", "probe", "probe", "types", "mutate", "mutate", "iofail", "many", "late"}).Draw(rt, "mode")
+	s.Mode = rapid.SampledFrom([]string{"probe", "probe", "probe", "types", "mutate", "mutate", "iofail", "many", "late", "dflt"}).Draw(rt, "mode")
 	switch s.Mode {
 	case "many":
 		// an indexed element list longer than anything a test writes by hand
@@ -232,6 +260,8 @@ func (c c15) Run(x *Exec, scn any) {
 		c.runMany(x, s)
 	case "late":
 		c.runLate(x, s)
+	case "dflt":
+		c.runDflt(x, s)
 	case "iofail":
 		errno := map[string]syscall.Errno{"ENOENT": syscall.ENOENT, "EACCES": syscall.EACCES, "EMFILE": syscall.EMFILE, "ENOSPC": syscall.ENOSPC}[s.Fault]
 		x.FS.AddFault(&simos.FaultRule{Op: "open", Prefix: "/logs", Err: errno, Skip: int(s.Knobs.MapSeed % 4), Count: -1})
@@ -547,6 +577,57 @@ func (c c15) runTypes(x *Exec, s *C15Scn, cfg map[string]string, mustSucceed boo
 	judgeDied(x, "C15")
 	if n := x.FS.OpenCount(); n != 0 {
 		o.violate("descriptor-after-destroy", "C15/descriptor-open-after-destroy", "%d descriptors open after Destroy", n)
+	}
+}
+
+// runDflt: attributes whose declared default is a ${placeholder}. Variants by map seed: both
+// properties present; the string one absent; the int one absent; the int one ill-typed; both
+// attributes configured directly (defaults unused, properties absent).
+func (c c15) runDflt(x *Exec, s *C15Scn) {
+	o := x.Out
+	variant := int(s.Knobs.MapSeed % 5)
+	cfg := map[string]string{"appender.p2.type": "Probe2", "logger.root.type": "Logger", "logger.root." + caseKey("appenderRef", s.Style.KeyCase) + ".ref": "p2"}
+	wantErr, wantDir, wantCap := "", "/var/log/app", 4096
+	switch variant {
+	case 0:
+		cfg["probe_dir"], cfg["probe_cap"] = "/var/log/app", "4096"
+	case 1:
+		cfg["probe_cap"] = "4096"
+		wantErr = "property probe_dir behind a declared default is absent"
+	case 2:
+		cfg["probe_dir"] = "/var/log/app"
+		wantErr = "property probe_cap behind a declared default is absent"
+	case 3:
+		cfg["probe_dir"], cfg["probe_cap"] = "/var/log/app", "lots"
+		wantErr = "ill-typed value behind a declared default"
+	case 4:
+		cfg["appender.p2.dir"], cfg["appender.p2.cap"] = "elsewhere", "7"
+		wantDir, wantCap = "elsewhere", 7
+	}
+	probe2Got.Lock()
+	probe2Got.set = false
+	probe2Got.Unlock()
+	err, ok := c.refresh(x, cfg)
+	if !ok {
+		return
+	}
+	o.Reached = true
+	defer x.do("destroy", func() { call(log.Destroy) })
+	if wantErr != "" {
+		if err == nil {
+			o.violate("error-expected", "C15/invalid-attribute-accepted/placeholder-default", "Refresh must fail (%s) but succeeded with dir=%q cap=%d\nconfig: %s", wantErr, probe2Got.dir, probe2Got.cap, cfgString(cfg))
+		}
+		return
+	}
+	if err != nil {
+		o.violate("valid-rejected", "C15/valid-attributes-rejected", "Refresh rejected a plugin whose defaults are placeholders for existing properties: %v\nconfig: %s", err, cfgString(cfg))
+		return
+	}
+	probe2Got.Lock()
+	dir, capv := probe2Got.dir, probe2Got.cap
+	probe2Got.Unlock()
+	if dir != wantDir || capv != wantCap {
+		o.violate("wrong-values", "C15/attribute-values-differ", "plugin with placeholder defaults got dir=%q cap=%d, expected %q %d\nconfig: %s", dir, capv, wantDir, wantCap, cfgString(cfg))
 	}
 }
 
